@@ -254,9 +254,10 @@ def r01_3_declared_is_enforced(chk, m):
     f, ctor = m.writer_ctor_call
     ds = chk.summary(f)
     wsul = m.writer_cls.lookup("write_storage_unit_label")
-    ctors = [c for c in ds.all_calls() if call_arg(c, kw="visible_record_length") is not None]
+    from ..terms import ctor_calls, bound_arg
+    ctors = [c for c in ctor_calls(ds, m.writer_cls) if bound_arg(chk.terms, ds, c, "visible_record_length") is not None]
     labels = [call_arg(c, 0) for c in ds.all_calls(wsul.name)]
-    vrl_arg = call_arg(ctors[0], kw="visible_record_length") if ctors else None
+    vrl_arg = bound_arg(chk.terms, ds, ctors[0], "visible_record_length") if ctors else None
     ok = bool(labels) and vrl_arg is not None and vrl_arg[0] == "attr" and vrl_arg[2] == "max_record_length" \
         and all(a == vrl_arg[1] for a in labels)
     chk.require(ok, "R01.3", "label-length-is-writer-length",
@@ -504,12 +505,8 @@ def r01_7_visible_record(chk, m):
     """Obligations on every visible record the record loop hands to the output buffer (the loop is interpreted as it
     is written, with the segmenter inlined), for all S and all accepted vrl."""
     f = m.vr_builder
-    st0, fields = m.writer_fields[0]
-    fmt = fields.get("_fmt_version")
-    ok_fmt = isinstance(fmt, SeqV) and [p[0] for p in fmt.pieces] == ["pack:>B", "pack:>B"] \
-        and [int(p[2][0].const) for p in fmt.pieces] == [255, 1]
-    chk.require(ok_fmt, "R01.7", "format-version-FF01", "visible record format version bytes are not FF 01",
-                m.writer_init.where)
+    # (the two version bytes are checked where they are emitted - obligation vr-version-FF01 below - wherever the
+    # writer keeps them: instance field, class constant or literal)
     failed_exact: set = set()
     pending: dict = {}
     order = sorted(range(len(m.yields)), key=lambda i: (not m.yields[i]["exact"], i))
